@@ -159,10 +159,10 @@ def plan(tier, seed):
     p = []
     if tier == 'quick':
         for lang in LANGS:
-            for d in (1, 2, 3, 4, 6, 8):
-                p.append({'lang': lang, 'max_depth': d, 'n': 8, 'chunk': 8})
-            p.append({'lang': lang, 'switches': list(SWITCHES), 'n': 8, 'chunk': 8, 'tag': 'allsw'})
-            p.append({'lang': lang, 'n': 8, 'chunk': 8, 'tag': 'tp4',
+            for d in (1, 2, 3, 4, 6):
+                p.append({'lang': lang, 'max_depth': d, 'n': 6, 'chunk': 3})
+            p.append({'lang': lang, 'switches': list(SWITCHES), 'n': 6, 'chunk': 3, 'tag': 'allsw'})
+            p.append({'lang': lang, 'n': 6, 'chunk': 3, 'tag': 'tp4',
                       'extra_argv': ['--max-type-params', '4'],
                       'cfg': {'limits': {'max_type_params': 4}}})
     else:
@@ -184,12 +184,12 @@ def plan(tier, seed):
 
 
 def finish(agg, tier):
-    agg.floor('cases', 150 if tier == 'quick' else 3000)
-    agg.floor('stage:generate', 150 if tier == 'quick' else 3000)
-    agg.floor('stage:translate', 300 if tier == 'quick' else 6000)
-    agg.floor('stage:erase', 150 if tier == 'quick' else 3000)
-    agg.floor('stage:overwrite', 100 if tier == 'quick' else 2000)
-    agg.floor('steps', 10_000_000 if tier == 'quick' else 200_000_000)
+    agg.floor('cases', 120 if tier == 'quick' else 3000)
+    agg.floor('stage:generate', 120 if tier == 'quick' else 3000)
+    agg.floor('stage:translate', 240 if tier == 'quick' else 6000)
+    agg.floor('stage:erase', 120 if tier == 'quick' else 3000)
+    agg.floor('stage:overwrite', 80 if tier == 'quick' else 2000)
+    agg.floor('steps', 5_000_000 if tier == 'quick' else 200_000_000)
     return agg.finish(
         rule='a case = (language, switch subset, max_depth, cfg limits, seed) run through generate, '
              'translate, <=3 erasures, overwrite, translate with the real driver call sequence; '
